@@ -17,7 +17,7 @@ from vlib.core import hexs, unhex, VERIF, CheckError
 from vlib.tr_life import tr_cfglife, tr_resid
 from vlib.tr_wrapper import tr_wrapper, tr_calls
 from vlib.syslevel import call_line, run_many
-from vlib.lifelib import build_both, run_life, run_lifemt, phases, addr2line, site_functions, gen_config, coq_query, SINKS, ENVLINE, FILTERS, OUTPUTS
+from vlib.lifelib import build_both, run_life, run_life_as, run_lifemt, phases, addr2line, site_functions, gen_config, coq_query, SINKS, ENVLINE, FILTERS, OUTPUTS
 
 STATE_KEYS = ("fds", "cwd", "umask", "sigmask", "handlers", "env")
 DS_ARGS = {"env": "HOME", "cgroup": "name=systemd", "snoopy_literal": "lit", "datetime": "%Y-%m-%d"}
@@ -47,6 +47,8 @@ def systematic_configs(info):
     for o in out:
         for arg in ("", ":@D@/a.log", ":@D@/s.sock", ":/nonexistent/dir/x"):
             cfgs.append(("output:%s%s" % (o, arg), "[snoopy]\noutput = %s%s\nerror_logging = yes\n" % (o, arg)))
+    for (nm, fmt) in (("unterminated-tag", "%{cmdline} %{cmdline"), ("unknown-source", "%{cmdline} %{nosuch} tail"), ("unknown-source-arg", "%{nosuch:arg}%{cmdline}"), ("empty-tag", "%{}%{:}")):
+        cfgs.append(("format:" + nm, base + 'message_format = "%s"\nerror_logging = yes\n' % fmt))
     cfgs.append(("ident-template", "[snoopy]\noutput = devlog\nsyslog_ident = \"id-%{username}-%{nosuch}\"\nsyslog_facility = LOCAL1\nsyslog_level = DEBUG\n"))
     cfgs.append(("file-template", "[snoopy]\noutput = file:@D@/%{username}.log\n"))
     cfgs.append(("small-limits", "[snoopy]\noutput = file:@D@/a.log\nlog_message_max_length = 255\ndatasource_message_max_length = 255\nerror_logging = yes\nmessage_format = \"%{cmdline} %{env_all}\"\n"))
@@ -166,10 +168,20 @@ def check(run):
     for j, (label, ini) in enumerate(longs):
         jobs.append(("long:" + label, ini, "ts" if j % 2 == 0 else "nts", 200 if j < (2 if quick else 20) else 50, None))
 
+    # ---- other identities of the caller: a uid without passwd entry, a terminal on stdin that has no utmp record
+    ident_fmt = b"[snoopy]\noutput = file:@D@/a.log\nmessage_format = \"%{username}:%{eusername}:%{group}:%{egroup}:%{tty}:%{tty_uid}:%{tty_username}:%{login}:%{ipaddr}|%{cmdline}\"\n"
+    for (uid, tty) in ((54321, 0), (0, 1), (54321, 1)):
+        jobs.append(("as:%d:%d:identity data sources" % (uid, tty), ident_fmt, "ts", 4, None))
+        jobs.append(("as:%d:%d:identity data sources" % (uid, tty), ident_fmt + b"filter_chain = \"only_tty;only_uid:0,54321\"\n", "nts", 3, None))
+
     def job(a):
         idx, (label, ini, v, ncalls, fault) = a
         script = script_for(ini, ncalls, rng, stdin_closed=label.startswith("nofd0:"))
-        r = run_life(run, libs[v], script, "c16-%d" % idx, fault=fault, timeout=300)
+        if label.startswith("as:"):
+            _, uid, tty, _ = label.split(":", 3)
+            r = run_life_as(run, libs[v], script, "c16-%d" % idx, int(uid), tty == "1", fault=fault, timeout=300)
+        else:
+            r = run_life(run, libs[v], script, "c16-%d" % idx, fault=fault, timeout=300)
         finds, n = judge(run, libs[v], r, 2 if fault else 1, label, ini, fault)
         return (label, ini, v, ncalls, fault, script, finds, n, set(x for x in observed_sites(r)))
     results = run_many(job, list(enumerate(jobs)), workers=8)
@@ -337,7 +349,11 @@ def replay(run, path):
     v = rep.get("variant", "ts")
     ini = rep["config"].encode("latin-1")
     script = rep.get("script") or script_for(ini, rep.get("calls", 4), run.rng)
-    r = run_life(run, libs[v], script, "replay", fault=rep.get("fault"), timeout=300)
+    if rep.get("label", "").startswith("as:"):
+        _, uid, tty, _ = rep["label"].split(":", 3)
+        r = run_life_as(run, libs[v], script, "replay", int(uid), tty == "1", fault=rep.get("fault"), timeout=300)
+    else:
+        r = run_life(run, libs[v], script, "replay", fault=rep.get("fault"), timeout=300)
     finds, n = judge(run, libs[v], r, 2 if rep.get("fault") else 1, rep.get("label", "replay"), ini, rep.get("fault"))
     print("configuration:\n" + rep["config"])
     print("fault:", rep.get("fault"), "variant:", v, "sampling points:", n)
